@@ -1,6 +1,7 @@
 import TensorModel.Run
 import TensorModel.Proofs.Views
 import TensorModel.Proofs.Builds
+import TensorModel.Generated.Core
 import TensorModel.Proofs.OperandCopy
 /-!
   C20 — alternative engines and build configurations are observationally equivalent.
@@ -55,6 +56,17 @@ theorem divmod_builds_agree (regs : Reg → BitVec 64) (q0 r0 : BitVec 64) (zf d
     cases h : runDivmod regs q0 r0 zf dx a 0#64 <;> simp [Outcome.frame, goDivmod]
   · rw [divmod_asm_spec regs q0 r0 zf dx a b hb]
     simp [goDivmod, hb]
+
+/-- **The pure-Go build's `divmod` is the primitive** (source level, G): the body of `divmod` in `mathutils_go.go` -
+    the file the `noasm` build compiles instead of the assembly - is translated on every run (`Gen.divmod_go`) and is,
+    for all integers, the one meaning `divmod` has in the regenerated index arithmetic (`Itol` calls it): truncated
+    quotient and remainder, the divide panic for a zero divisor. A fast path that is not the same function for every
+    pair of operands makes this equality false (or leaves the translator's subset, which removes `Gen.divmod_go`). -/
+theorem divmod_go_source (a b : Int) : Gen.divmod_go a b = Gen.divmod a b := by
+  unfold Gen.divmod_go Gen.divmod Gen.gdiv Gen.gmod
+  by_cases hb : (b == 0) = true
+  · simp [hb, bind, Except.bind, Gen.gpanic, throw, throwThe, MonadExceptOf.throw]
+  · simp [hb, bind, Except.bind, pure, Except.pure]
 
 /-- link to the unbounded-integer model (`goDiv`/`goMod` of `Basic.lean`, used by `itol`): when the
     mathematical quotient fits (everything but `MinInt / -1`), the 64-bit result is the truncated
